@@ -55,6 +55,12 @@ class AstToSqlAlchemyOrmVisitor(common._CommonVisitors, visitor.NodeVisitor):
         right = self.visit(node.right)
         op = self.visit(node.comparator)
 
+        if isinstance(node.left, ast.Null) and isinstance(
+            node.comparator, (ast.Eq, ast.NotEq)
+        ):
+            # `null eq x`: only `x == null()` is rendered as `x IS NULL`
+            left, right = right, left
+
         # If a node is a `relationship` representing a single foreign key,
         # the client meant to compare the foreign key, not the related object.
         # E.g. In "blogpost/author eq 1", left should be "blogpost/author_id"
